@@ -17,13 +17,13 @@ CLAIMS = {
               'populations, all registers); members of a group are exactly the lights reporting it; operands joined by `and` '
               'share one delay. Forward simulation (Lang/Simulation.v, Simulation2.v) is proved for every program made of register '
               'settings, unit switches, assignments, print / println, wait, set / on / off of all lights or lists of lights, groups and '
-              'locations, if / else, begin-end blocks and `repeat while` loops nested to any depth -- values any ordinary rvalue or call-free numeric expression of any size -- and every population: WHENEVER the reference '
+              'locations, if / else, begin-end blocks, `repeat while` and counted `repeat n` loops nested to any depth -- values any ordinary rvalue or call-free numeric expression of any size -- and every population: WHENEVER the reference '
               'semantics runs the source to its end with events evs, the code of the compiler model, loaded and run on the machine model '
               'from the initial state, finishes with exactly evs (and statement by statement for code anywhere in an image, inside any enclosing loops). For '
               'the other loop forms, break, routines, zones and matrix blocks the agreement of reference semantics, compiler, loader and machine models with each '
               'other and with the implementation is established per run by the oracle and correspondence comparisons, i.e. by testing, over '
               '~400 (quick) / ~6000 (thorough) scripts.'),
-        note=COMMON_NOTE + 'Partial: the simulation theorem covers call-free programs with if / else and `repeat while` loops (no break) only; arithmetic outside the modelled range (libm, rgb, ints beyond 2^53 with floats) is skipped and counted; device layer = repository fakes.',
+        note=COMMON_NOTE + 'Partial: the simulation theorem covers call-free programs with if / else, `repeat while` and `repeat n` loops (no break, no index or light variable) only; arithmetic outside the modelled range (libm, rgb, ints beyond 2^53 with floats) is skipped and counted; device layer = repository fakes.',
         technique='Coq reference semantics + machine/compiler models; lemmas by induction; oracle and correspondence by vm_compute evaluation of generated cases',
         design='DESIGN.md 7 C01'),
     'C05': dict(
